@@ -247,10 +247,11 @@ def witnesses(run, drv):
 
 def main():
     run = Run("C05")
-    run.rule = ("histories: random event histories (constructors over existing nodes incl. shared nodes, lazy stacks, lock_/unlock_, context managers, pickle round trips, "
-                "memmap_/share_memory_, drop+gc, 9 mutator effects through 14 public methods), every event a case; sweep: every public callable of 6 container classes "
-                "x synthesised argument variants (+inplace=True where accepted) + hand-written calls for the mutators, on a locked subject and an unlocked twin; "
-                "a case is non-trivial if it is a distinct (history, step) or (class, method, variant)")
+    run.rule = ("histories: random event histories over TensorDict / lazy-stack / tensorclass nodes (constructors over existing nodes incl. shared nodes, lock_/unlock_, context managers, "
+                "pickle round trips, memmap_/share_memory_ (also on lazy roots), drop+gc, 9 mutator effects through 14 public methods, on the node itself or through a nested key given to an ancestor), "
+                "every event a case; sweep: every public callable of 6 container classes on 8 subjects (incl. an unlocked holder of a node shared with a locked root, and a lazy stack over a locked and an "
+                "unlocked member) x synthesised argument variants (+inplace=True where accepted) + hand-written calls for the mutators and the in-place writes that must succeed, on a locked subject and an "
+                "unlocked twin; a case is non-trivial if it is a distinct (history, step) or (class, method, variant)")
     run.trusted += [
         "Model/C05Lock.lean: hand transcription of the lock code (base.py _propagate_lock/_propagate_unlock/_check_unlock/lock_/unlock_/__setstate__, _lazy.py is_locked/_lock_parents_weakrefs/_propagate_*, _td.py share_memory_/_memmap_, utils.py lock_blocked/_as_context_manager), validated each run by the event-history correspondence",
         "harness/c05_gen.py: ast+reflection extraction of the guard table (may-analysis of the call graph: a guarded callee on some path counts); the behavioural sweep checks the paths actually taken",
@@ -274,7 +275,8 @@ def main():
         thorough = run.tier == "thorough"
         corpus(run, drv, scratch)
         witnesses(run, drv)
-        histories(run, drv, 4000 if thorough else 300, 32 if thorough else 26, scratch)
+        if not run.replay:
+            histories(run, drv, 4000 if thorough else 300, 32 if thorough else 26, scratch)
         import c05_sweep_run
         c05_sweep_run.sweep(run, drv, info, scratch, thorough)
     finally:
